@@ -217,9 +217,6 @@ H("c15_codepoint_range_and_len", "cmap.rs", {"C15": X}, CM, "2-byte incrementing
 H("c04_cmap_hostile_targets", "cmap.rs", {"C15": X}, CM, "empty target, overflowing increment, array shorter than range, equal adjacent arrays; all codes 0..=8: no panic", timeout=1200, models=RM, stubs=RMS)
 
 
-for n in ("dbg_fold_vec_object", "dbg_fold_dict", "dbg_fold_filters", "dbg_fold_stream_get", "dbg_fold_as_name", "dbg_fold_as_name_vec", "dbg_fold_filters_concrete"):
-    H(n, "object.rs", {"DBG": X}, [], "probe", timeout=600, stubs=LS)
-
 
 def select(pid, tier):
     out = []
